@@ -161,6 +161,19 @@ def opGfMargG (a : Args) : Except String String := do
   let pred : Array F ← vals a "pred"
   pure s!"ok m={sh (Gen.gformula_marginal hasW st l (look pred) (fun _ => true))}"
 
+/-- the definition generated from the text of `aipw_calculator` (splits=None): estimate and variance -/
+def opAipwCalcG (a : Args) : Except String String := do
+  let l : List (Row F) ← parseRows a
+  let diff ← need a "difference" parseBool
+  let hasW ← need a "hasw" parseBool
+  let nanv : F ← need a "nan" (Carrier.parse (F := F))
+  let q1 : Array F ← vals a "q1"
+  let q0 : Array F ← vals a "q0"
+  let g1 : Array F ← vals a "g1"
+  let g0 : Array F ← vals a "g0"
+  let (est, var) := Gen.aipw_calc diff hasW nanv l (look q1) (look q0) (look g1) (look g0)
+  pure s!"ok est={sh est} var={sh var}"
+
 /-- standardized means over the generalize / transport target -/
 def opStdGenG (a : Args) : Except String String := do
   let l : List (Row F) ← parseRows a
@@ -187,6 +200,7 @@ def opsStd : OpTable := [
   ("aipswfit", atCarrier (opAipswFitG (F := Rat)) (opAipswFitG (F := Float))),
   ("ipswfit", atCarrier (opIpswFitG (F := Rat)) (opIpswFitG (F := Float))),
   ("gfmarg", atCarrier (opGfMargG (F := Rat)) (opGfMargG (F := Float))),
+  ("aipwcalc", atCarrier (opAipwCalcG (F := Rat)) (opAipwCalcG (F := Float))),
   ("stdgen", atCarrier (opStdGenG (F := Rat)) (opStdGenG (F := Float)))]
 
 end ZVD
